@@ -92,10 +92,10 @@ class C16(Prop):
         obs = [r for r in results if r[0] == "obs"]
         ol = [o for o in ops if o[0] not in ("init", "dumpfs", "counters")]
         if not (len(raws) == len(obs) == len(ol)):
-            return []
+            return self.skip("guard")
         first = next(((kv, o) for raw, (_, _, o), (n, kv) in zip(raws, obs, ol) if n == "match" and "role" not in raw), None)
         if not first or first[1]["outcome"] != "added" or not first[0]["pre"].startswith("ok:"):
-            return []
+            return self.skip("guard")
         for raw, (_, idx, o), (n, kv) in zip(raws, obs, ol):
             role = raw.get("role")
             if role == "masked":
